@@ -36,6 +36,9 @@ pub enum Step {
     Finish(usize),
     DropHandles,
     Table,
+    /// move the ID counter so that the next allocation tries `next_id` first; the in-use set is the
+    /// library's own (emulates the wrap of the ID space; not a model event: R-oracle scenarios only)
+    Rewind(i32),
     FailWrites,
     MaxRead(usize),
     /// the peer stops / resumes draining its socket: client writes block
@@ -259,7 +262,17 @@ pub fn run_script(steps: &[Step]) -> Outcome {
                         Step::Garbage => {
                             verif_trace(String::from("srv garbage"));
                             link_down = true;
-                            net.send(&[0x30, 0x03, 0x04, 0x01, 0x41]); // SEQUENCE { OCTET STRING }: not an envelope
+                            // one of several complete frames that are not LDAPMessages, in rotation; the server
+                            // stays connected and silent afterwards, so only a decode error ends the driver
+                            static GARBAGE_NO: std::sync::atomic::AtomicUsize = std::sync::atomic::AtomicUsize::new(0);
+                            const GARBAGE: [&[u8]; 4] = [
+                                &[0x30, 0x03, 0x04, 0x01, 0x41],                   // SEQUENCE { OCTET STRING }: not an envelope
+                                &[0x30, 0x0c, 0x02, 0x01, 0x02, 0x61, 0x07, 0x0a, 0x01, 0x00, 0x04, 0x00, 0x04, 0x05], // inner TLV overruns its parent (F3)
+                                &[0x30, 0x00],                                     // empty envelope (F1)
+                                &[0x04, 0x02, 0x41, 0x42],                         // not even a SEQUENCE
+                            ];
+                            let g = GARBAGE[GARBAGE_NO.fetch_add(1, std::sync::atomic::Ordering::Relaxed) % GARBAGE.len()];
+                            net.send(g);
                         }
                         Step::Reset => {
                             verif_trace(String::from("srv garbage"));
@@ -300,6 +313,13 @@ pub fn run_script(steps: &[Step]) -> Outcome {
                             if let Some(h) = main_handle.as_ref() {
                                 let (last, used) = h.verif_msgmap();
                                 verif_trace(format!("tbl {} {:?}", last, used).replace(", ", ","));
+                            }
+                        }
+                        Step::Rewind(next_id) => {
+                            if let Some(h) = main_handle.as_ref() {
+                                let (_, used) = h.verif_msgmap();
+                                h.verif_set_msgmap(if next_id <= 1 { i32::MAX } else { next_id - 1 }, &used);
+                                verif_trace(format!("rewind {}", next_id));
                             }
                         }
                         Step::FailWrites => {
